@@ -154,12 +154,22 @@ def svRecToSource : List (String × SV) → List String
   | (k, v) :: r => (formatRecordKey k ++ ": " ++ svToSource v) :: svRecToSource r
 end
 
-/-- `protect_statement_start`: a statement whose text starts with `-` would continue the
-    line before it -/
+/-- the text starts with `via` / `into` / `where` (the word operators that are no reserved
+    words, so they may be names) followed by a blank or a tab:
+    `["via", "into", "where"].iter().any(|w| source.strip_prefix(w).is_some_and(|rest|
+    rest.starts_with(' ') || rest.starts_with('\t')))` -/
+def wordOperatorStart (cs : List Char) : Bool :=
+  ["via", "into", "where"].any fun w =>
+    (w.toList ++ [' ']).isPrefixOf cs || (w.toList ++ ['\t']).isPrefixOf cs
+
+/-- the test of `protect_statement_start`: `source.starts_with('-') || word_operator_start` -/
+def protectDecide (cs : List Char) : Bool := cs.head? == some '-' || wordOperatorStart cs
+
+/-- `protect_statement_start`: a statement whose text starts with `-`, or with a name spelled
+    like a word operator followed by a blank, would continue the line before it (`a` ⏎
+    `where into x` is read as `a where into` and a stray `x`): parenthesise it -/
 def protectStatementStart (s : String) : String :=
-  match s.toList with
-  | '-' :: _ => "(" ++ s ++ ")"
-  | _ => s
+  if protectDecide s.toList then "(" ++ s ++ ")" else s
 
 abbrev Scope := List (String × SV)
 
